@@ -107,7 +107,9 @@ func ConcatItems[T any](items []T) (T, error) {
 		return t, err
 	}
 
-	return cv.Interface().(T), nil
+	// comma-ok: for an interface-typed T the concatenated value may be the nil interface
+	ret, _ := cv.Interface().(T)
+	return ret, nil
 }
 
 func concatMaps(ms reflect.Value) (reflect.Value, error) {
@@ -227,6 +229,9 @@ func mapToStruct(m map[string]any, t reflect.Type, toPtr bool) reflect.Value {
 
 func toSliceValue(vs []any) (reflect.Value, error) {
 	typ := reflect.TypeOf(vs[0])
+	if typ == nil {
+		return reflect.Value{}, fmt.Errorf("cannot concat nil value")
+	}
 
 	ret := reflect.MakeSlice(reflect.SliceOf(typ), len(vs), len(vs))
 	ret.Index(0).Set(reflect.ValueOf(vs[0]))
